@@ -1,17 +1,17 @@
 #!/bin/sh
 # runs every stored seeded change against the check of its property and writes seeded/RESULTS.md
-# (applies each patch to /repo, runs the quick check, restores /repo; evidence files are preserved by try_seed.sh)
+# (each change is applied to a scratch worktree of /repo's HEAD, see try_seed2.sh; /repo itself is never touched)
 cd /verif
 OUT=seeded/RESULTS.md
 echo "| seed | demo clean/seeded | pytest | check exit | first report |" > $OUT
 echo "|---|---|---|---|---|" >> $OUT
-for d in $(ls -d seeded/C*-* | sort); do
-  s=$(basename $d); p=${s%%-*}
-  tools/try_seed.sh /verif/$d $p quick > /tmp/seed_matrix.out 2>&1
-  dc=$(grep 'demo on clean' /tmp/seed_matrix.out | sed 's/.*exit //'); ds=$(grep 'demo on seeded' /tmp/seed_matrix.out | sed 's/.*exit //')
-  py=$(grep -E 'passed' /tmp/seed_matrix.out | head -1 | sed 's/ in .*//')
-  rc=$(grep 'check exit' /tmp/seed_matrix.out | sed 's/.*exit //')
-  v=$(grep -E '^(VIOLATION|INCONCLUSIVE|ENGINE-ERROR)' /tmp/seed_matrix.out | head -1 | sed 's/replay=[^ ]* *//' | cut -c1-160)
+for d in $(ls -d seeded/C*-* | sort -V); do
+  s=$(basename $d)
+  tools/try_seed2.sh $s quick > /tmp/wt/seed_matrix.out 2>&1
+  dc=$(grep 'demo on clean' /tmp/wt/seed_matrix.out | sed 's/.*exit //'); ds=$(grep 'demo on seeded' /tmp/wt/seed_matrix.out | sed 's/.*exit //')
+  py=$(grep -E 'passed' /tmp/wt/seed_matrix.out | head -1 | sed 's/ in .*//')
+  rc=$(grep 'check exit' /tmp/wt/seed_matrix.out | sed 's/.*exit //')
+  v=$(grep -E '^(VIOLATION|INCONCLUSIVE|ENGINE-ERROR)' /tmp/wt/seed_matrix.out | head -1 | sed 's/replay=[^ ]* *//' | cut -c1-160)
   echo "| $s | $dc/$ds | $py | $rc | $v |" >> $OUT
   echo "$s rc=$rc $v"
 done
